@@ -154,6 +154,37 @@ func TestC06(t *testing.T) {
 				// the same non-empty slice or map again: travels as a back-reference to a list / map
 				vals = append(vals, conts[rapid.IntRange(0, len(conts)-1).Draw(rt, "againContainer")])
 				kinds = append(kinds, "repeat-container")
+			case k == 4 && len(conts) > 0:
+				// a struct whose typed field IS a list sent earlier on its own: a back-reference
+				// that has to be bound to a struct field
+				cv := conts[rapid.IntRange(0, len(conts)-1).Draw(rt, "fieldOfEarlier")]
+				var w interface{}
+				switch x := cv.(type) {
+				case []int32:
+					w = &zoo.SlI32{L: x}
+				case []string:
+					w = &zoo.SlStr{L: x}
+				case []*zoo.Inner:
+					w = &zoo.SlPtr{L: x}
+				case []zoo.Inner:
+					w = &zoo.SlVal{L: x}
+				case []int64:
+					w = &zoo.SlI64{L: x}
+				case []float64:
+					w = &zoo.SlF64{L: x}
+				case []interface{}:
+					w = &zoo.AnyList{N: 1, L: x}
+				case map[interface{}]interface{}:
+					w = &zoo.AnyMap{M: x}
+				case map[string]int32:
+					w = &zoo.MpStrI32{M: x}
+				case map[string]string:
+					w = &zoo.MpStrStr{M: x}
+				default:
+					w = []interface{}{cv, cv}
+				}
+				vals = append(vals, w)
+				kinds = append(kinds, "field-refers-to-earlier-value")
 			case k == 2:
 				vals = append(vals, rapid.SampledFrom([]interface{}{nil, "", time.Time{}, map[string]int32{}, (*zoo.Inner)(nil)}).Draw(rt, "nullish"))
 				kinds = append(kinds, "null-rendered")
@@ -264,7 +295,7 @@ func TestC06(t *testing.T) {
 		reused := false
 		for _, k := range kinds {
 			distinctTop[k] = true
-			if k == "repeat-pointer" || k == "repeat-container" || strings.HasPrefix(k, "same-class:") {
+			if k == "repeat-pointer" || k == "repeat-container" || k == "field-refers-to-earlier-value" || strings.HasPrefix(k, "same-class:") {
 				reused = true
 			}
 		}
